@@ -46,7 +46,7 @@ def run_stream(spec, ctx, stream, cases, tag):
     os.makedirs(wd, exist_ok=True)
     inp = os.path.join(wd, 'in.txt')
     open(inp, 'w').write('\n'.join(cases) + '\n')
-    core.harness(ctx['bins'][stream['config']], [stream['component'], 'run', inp, '--out', wd], timeout=7200)
+    core.harness(ctx['bins'][stream['config']], [stream['component'], 'run', inp, '--out', wd], timeout=(1200 if ctx.get('tier') == 'quick' else 14400))
     rd = lambda f: [l for l in open(os.path.join(wd, f)).read().split('\n') if l]
     cs, im = rd('cases.txt'), rd('impl.txt')
     if len(cs) != len(im):
